@@ -270,6 +270,7 @@ def run(ctx):
                     "lines as new text (%s)" % (found_count, found_keep), ["src/rustfmt_diff.rs"])
 
     swapped_arguments(ctx, "R12-d")
+    modified_lines_one_write_per_line(ctx, "R12-e")
 
 
 def name_root(fn, op, depth=0):
@@ -335,3 +336,77 @@ def swapped_arguments(ctx, rid):
                             "and of the formatted text are exchanged in every report built on it" % (
                                 short(callee.id), ", ".join(map(str, pnames)), roots[i], pnames[i]), [c.loc()])
     r.floor(rid, n, 3, "calls with ≥2 named parameters in the diff / emitter modules")
+
+
+def modified_lines_one_write_per_line(ctx, rid):
+    """R12-e: the textual ModifiedLines report writes one line per element of chunk.lines, so that the header's count is the
+    number of text lines that follow (what FromStr and any consumer of the format rely on)"""
+    from common import natural_loops
+    p, r = ctx.p, ctx.r
+    r.rule(rid, "<ModifiedLines as Display>::fmt: every formatter write whose data derives from ModifiedChunk.lines otherwise than "
+                "through len() sits inside a loop (or for_each / try_for_each closure) that iterates those lines — one write per "
+                "element; the header write derives from line_number_orig, lines_removed and lines.len() only")
+    f = next((x for x in p.fns.values() if x.id.endswith("ModifiedLines as std::fmt::Display>::fmt")), None)
+    if f is None:
+        r.undecidable(rid, "<ModifiedLines as Display>::fmt not found")
+        return
+    SINK = ("Formatter::<'a>::write_fmt", "Formatter::<'a>::write_str", "Write::write_fmt", "Write::write_str", "Write::write_char",
+            "Formatter::<'a>::pad")
+
+    def is_len(c):
+        return c.name.endswith("::len") or c.name.endswith("::is_empty")
+
+    def per_line_loop_depth(fn, bb):
+        """number of loops around bb whose iterator derives from field `lines`"""
+        n = 0
+        for h, body in natural_loops(fn):
+            if bb not in body:
+                continue
+            for c in fn.calls():
+                if c.bb in body and (c.declared == "std::iter::Iterator::next" or c.name.endswith("Iterator>::next")) and c.args and c.args[0][0] != "k":
+                    d = fn.derived_from(c.args[0][1][0], stop_calls=is_len)
+                    if any(x[2] == "lines" for x in d["fields"]):
+                        n += 1
+                        break
+        return n
+
+    n_sinks = n_line = 0
+    bodies = [f] + p.closures_of(f)
+    for g in bodies:
+        for c in g.calls():
+            if not any(c.name.endswith(s) or (c.declared or "").endswith(s) for s in SINK):
+                continue
+            n_sinks += 1
+            data = [a for a in c.args[1:] if a[0] != "k"]
+            fields, calls = set(), []
+            for a in data:
+                d = g.derived_from(a[1][0], stop_calls=is_len)
+                fields |= {x[2] for x in d["fields"]}
+                calls += d["calls"]
+            from_lines = "lines" in fields and any(not is_len(cc) for cc in calls if cc.args and cc.args[0][0] != "k"
+                                                   and "lines" in {x[2] for x in g.derived_from(cc.args[0][1][0], stop_calls=is_len)["fields"]}
+                                                   ) or ("lines" in fields and not any(is_len(cc) for cc in calls))
+            if g is not f:
+                # a closure body: one write per call; the closure must be driven by an iterator over the lines
+                driven = False
+                for pc in f.calls():
+                    if g.id in pc.refs and pc.name.rsplit("::", 1)[-1] in ("for_each", "try_for_each") and pc.args and pc.args[0][0] != "k":
+                        d = f.derived_from(pc.args[0][1][0], stop_calls=is_len)
+                        driven = any(x[2] == "lines" for x in d["fields"])
+                depth = 1 if driven else 0
+                from_lines = True if driven else from_lines
+            else:
+                depth = per_line_loop_depth(g, c.bb)
+            if from_lines:
+                n_line += 1
+                ok = depth >= 1
+                r.instance(rid, "line text written %s" % ("once per element" if ok else "outside a per-line loop"),
+                           "ok" if ok else "violation", c.loc())
+                if not ok:
+                    r.violation(rid, "ModifiedLines::fmt writes the text of chunk.lines outside a per-line loop",
+                                "a write of data derived from ModifiedChunk.lines (through %s) is not inside a loop over those lines: "
+                                "the number of text lines after a header no longer equals the count the header announces (an empty "
+                                "chunk prints a stray empty line; FromStr rejects the report)"
+                                % sorted({short(cc.name).rsplit("::", 1)[-1] for cc in calls if not is_len(cc)})[:4], [c.loc()])
+    r.floor(rid, n_sinks, 2, "formatter writes in ModifiedLines::fmt")
+    r.floor(rid, n_line, 1, "writes of line text in ModifiedLines::fmt")
